@@ -13,7 +13,7 @@ git checkout -q -- . ; git clean -fdq
 PYTHONPATH=$wt timeout 600 /venv/bin/python "$out/m${k}_demo.py" >/tmp/wt/demo_without.txt 2>&1; rc_without=$?
 echo "$pid m$k base=$base tests: $t | demo with change rc=$rc_with | without rc=$rc_without"
 if [[ "$t" == 82\ passed* && $rc_with -ne 0 && $rc_without -eq 0 ]]; then
-  d=/verif/seeded/$pid-m$k; mkdir -p $d
+  d=/verif/seeded/${TARGET:-$pid-m$k}; mkdir -p $d
   cp "$out/m$k.diff" $d/patch.diff; cp "$out/m${k}_demo.py" $d/demo.py; cp "$out/m${k}_notes.md" $d/notes.md
   echo "$base" > $d/.base
   echo CONFIRMED
